@@ -35,6 +35,7 @@ except ImportError:
 from pydantic import Field, PositiveFloat, ConfigDict
 
 from processscheduler.base import BaseModelWithJson
+import processscheduler.base
 from processscheduler.indicator import IndicatorFromMathExpression
 from processscheduler.objective import Objective
 from processscheduler.solution import (
@@ -444,15 +445,29 @@ class SchedulingSolver(BaseModelWithJson):
         self.append_z3_assertion(
             equivalent_single_objective == z3.Sum(weighted_objectives)
         )
-        # create an indicator
-        equivalent_indicator = IndicatorFromMathExpression(
-            name="EquivalentIndicator", expression=equivalent_single_objective
-        )
-        equivalent_objective = Objective(
-            name="MinimizeEquivalentObjective",
-            target=equivalent_indicator,
-            kind=obj.kind,
-        )
+        # create an indicator and an objective. They belong to the problem being
+        # solved (not to the problem that happens to be the active one), and they
+        # are created once: another solver, or another initialization, reuses
+        # the indicator
+        previous_active_problem = processscheduler.base.active_problem
+        processscheduler.base.active_problem = self.problem
+        try:
+            if "EquivalentIndicator" in self.problem.indicators:
+                equivalent_indicator = self.problem.indicators["EquivalentIndicator"]
+            else:
+                equivalent_indicator = IndicatorFromMathExpression(
+                    name="EquivalentIndicator", expression=equivalent_single_objective
+                )
+            equivalent_objective = Objective(
+                name="MinimizeEquivalentObjective",
+                target=equivalent_indicator,
+                kind=obj.kind,
+            )
+            # the equivalent objective stands for the objectives of the problem,
+            # it is not one more of them
+            del self.problem.objectives[equivalent_objective.name]
+        finally:
+            processscheduler.base.active_problem = previous_active_problem
         self._objective = equivalent_objective
         self.append_z3_assertion(equivalent_indicator.get_z3_assertions())
         return equivalent_objective, equivalent_indicator
